@@ -304,6 +304,22 @@ def gen_keyed_cases(rng):
         ("select id, count(*) from kv group by id", False, 0),
     ]
     cases = [{"setup": setup, "sql": q, "features": ["keyed-multi-rowset"], "ordered": o, "nkeys": nk} for q, o, nk in qs]
+    # a composite primary key declared by a table constraint, key columns not co-monotone, several inserts:
+    # ORDER BY / GROUP BY / joins on a non-leading key column that never read the leading one
+    pairs = [(a, b) for a in range(1, 5) for b in range(1, 5)]
+    rng.shuffle(pairs)
+    pairs = pairs[:rng.choice([6, 9, 12])]
+    setup3 = ["create table kc(a int, b int, v int, primary key(a, b))"]
+    for part in range(3):
+        chunk = pairs[part::3]
+        if chunk:
+            setup3.append("insert into kc values %s" % ", ".join("(%d, %d, %s)" % (a, (5 - b) if a % 2 else b, lit(rng, "int")) for a, b in chunk))
+    for q, o, nk in [("select b from kc order by b", True, 1), ("select b, v from kc order by b, v", True, 2),
+                     ("select b from kc order by b limit 3 offset 1", True, 1), ("select a, b from kc order by a, b", True, 2),
+                     ("select b, count(*) from kc group by b", False, 0), ("select a from kc order by a desc", True, 1),
+                     ("select x.b, y.b from kc x join kc y on x.b = y.b and x.a = y.a", False, 0),
+                     ("select b from kc where b >= 2 order by b", True, 1)]:
+        cases.append({"setup": setup3, "sql": q, "features": ["composite-key-constraint"], "ordered": o, "nkeys": nk})
     # ORDER BY a key of the padded side of an outer join whose other rows are unmatched: the sequence
     # is compared on the ORDER BY column only (`order_cols`), ties among the NULLs are free
     setup2 = setup + ["create table u1(a int, b int)", "insert into u1 values %s" % ", ".join("(%d, %d)" % (rng.randrange(0, 40), rng.randrange(0, 5)) for _ in range(rng.choice([4, 7])))]
